@@ -76,6 +76,11 @@ theorem C16_split (k d : Bytes) (hk : (58 : UInt8) ∉ k) :
 theorem C16_default_plain (d : Bytes) (h : plainDefault d = true) : normDefault d = .ok d :=
   normDefault_plain d h
 
+/-- A default written in single or double quotes is used without the quotes (the container's literal syntax). -/
+theorem C16_default_quoted (q : UInt8) (inner : Bytes) (hq : q = 39 ∨ q = 34) :
+    normDefault (q :: (inner ++ [q])) = .ok inner :=
+  normDefault_quoted q inner hq
+
 example : plainDefault (ofString "some text: a,b") = true := by decide +kernel
 example : normDefault (ofString "'quoted'") = .ok (ofString "quoted") := by decide +kernel
 example : normDefault (ofString "TRUE") = .ok (ofString "true") := by decide +kernel
